@@ -247,7 +247,7 @@ class SessionEngine(Engine):
             e.note('emit_code = function of the observation')
             v = deref_all(e, st, argv[0])
             return Adt('Result', 'Ok', [ObsStr('code', v.fields[0].obs)])
-        if re.match(r'^(core::str::|std::str::)?(<impl str>::|str::)replace::<.*>$', n) or re.match(r'^(alloc::str::)?<impl str>::replace::<.*>$', n):
+        if re.match(r'^((core|std|alloc)::)?(str::)?<impl str>::replace::<.*>$', n) or re.match(r'^((core|std|alloc)::)?str::replace::<.*>$', n):
             e.note('str::replace on concrete strings')
             hay, pat, to = strv(e, st, argv[0]), argv[1], strv(e, st, argv[2])
             pat_s = chr(pat) if isinstance(pat, int) else strv(e, st, pat).s
